@@ -46,6 +46,7 @@ pub static DRV_PATH: std::sync::OnceLock<String> = std::sync::OnceLock::new();
 /// model disagreements found by scenarios (drift, not violations)
 pub static DRIFT: parking_lot::Mutex<Vec<String>> = parking_lot::Mutex::new(Vec::new());
 pub static MODEL_REQUESTS: std::sync::atomic::AtomicU64 = std::sync::atomic::AtomicU64::new(0);
+static COMPACT_DURING_BATCH: std::sync::atomic::AtomicU64 = std::sync::atomic::AtomicU64::new(0);
 
 fn open(cfg: &Cfg, fs: &SimFs) -> Result<Arc<DB>, Fail> {
     DB::open(cfg.options(fs)).map(Arc::new).map_err(|e| ("c05:open-failed".to_string(), e.to_string()))
@@ -282,11 +283,35 @@ fn batch_parked(seed: u64) -> Vec<Fail> {
         }
     }
     let snap = db.get_snapshot();
+    // another client asks for a manual compaction of the whole range while the batch is half
+    // applied: it has to queue behind the writer (or at least leave the batch whole)
+    let mut compactor = None;
+    if rng.chance(1, 2) {
+        COMPACT_DURING_BATCH.fetch_add(1, Ordering::SeqCst);
+        let d3 = db.clone();
+        let done = Arc::new(std::sync::atomic::AtomicBool::new(false));
+        let done2 = done.clone();
+        compactor = Some(std::thread::spawn(move || {
+            sched::set_role("compactor");
+            d3.compact_range(None..None);
+            done2.store(true, Ordering::SeqCst);
+        }));
+        let t0 = std::time::Instant::now();
+        while !done.load(Ordering::SeqCst) && db.verif_state().writer_queue_len < 2 && t0.elapsed() < Duration::from_secs(3) {
+            std::thread::sleep(Duration::from_millis(2));
+        }
+        check("while the batch is in flight and a manual compaction has been requested", &old, None, &mut fails);
+    }
     gate.release();
     match writer.join() {
         Ok(Ok(())) => {}
         Ok(Err(e)) => fails.push(("c06:apply-failed".into(), format!("apply failed: {e}"))),
         Err(_) => fails.push(("c09:panic".into(), "the writer panicked".into())),
+    }
+    if let Some(c) = compactor {
+        if c.join().is_err() {
+            fails.push(("c09:panic".into(), "compact_range panicked".into()));
+        }
     }
     check("after the batch returned", &new, None, &mut fails);
     check("at the snapshot taken while the batch was in flight", &old, Some(snap.clone()), &mut fails);
@@ -658,6 +683,18 @@ fn stress_with(seed: u64, big: bool) -> Vec<Fail> {
             }
         }));
     }
+    // a maintenance client: manual compactions of the whole range while the others read and write
+    if rng.chance(1, 2) {
+        let db = db.clone();
+        let n = rng.range(1, 4);
+        let gap = rng.range(0, 8);
+        hs.push(std::thread::spawn(move || {
+            for _ in 0..n {
+                std::thread::sleep(Duration::from_millis(gap));
+                db.compact_range(None..None);
+            }
+        }));
+    }
     for h in hs {
         if h.join().is_err() {
             fails.push(("c09:panic".into(), "a stress thread panicked".into()));
@@ -680,7 +717,8 @@ fn stress_with(seed: u64, big: bool) -> Vec<Fail> {
         if floor_idx.is_none() && obs == 0 {
             ok = true;
         }
-        let mut order_of_obs: Option<usize> = if obs == 0 && floor_idx.is_none() { Some(0) } else { None };
+        // every write (by 1-based index; 0 = the initial absence) that explains the observation
+        let mut explains: Vec<usize> = if obs == 0 && floor_idx.is_none() { vec![0] } else { vec![] };
         for (wi, w) in wl.iter().enumerate().skip(lo) {
             if w.0 > e {
                 break;
@@ -689,16 +727,18 @@ fn stress_with(seed: u64, big: bool) -> Vec<Fail> {
             let ver = w.2 & !(1 << 63);
             if (is_del && obs == 0) || (!is_del && obs == ver) {
                 ok = true;
-                order_of_obs = Some(wi + 1);
-                // versions of puts are unique, but "absent" can be explained by ANY delete among the
-                // candidates: for the never-backwards check take the latest one that explains it
-                // (choosing the earliest raised a false alarm: delete #17, put #18 seen by the first
-                // read, delete #19 in flight during the second)
-                if !is_del {
-                    break;
-                }
+                explains.push(wi + 1);
             }
         }
+        // versions of puts are unique, but "absent" can be explained by ANY delete among the
+        // candidates. For the never-backwards check the choice is existential: take the earliest
+        // explanation that is not before what this thread has already seen (greedy is optimal for
+        // a monotone chain). Fixed choices raised two false alarms: the earliest (delete #17, put #18
+        // seen by the first read, delete #19 in flight during the second) and the latest (first read
+        // overlaps delete #36, put #37 and delete #38 and sees absence; the second overlaps #38 and
+        // sees #37).
+        let prev_seen = *last_seen.get(&(t, ki)).unwrap_or(&0);
+        let order_of_obs: Option<usize> = explains.iter().copied().find(|o| *o as u64 >= prev_seen).or(explains.last().copied());
         if !ok {
             fails.push((
                 "c05:read-not-linearizable".into(),
@@ -709,7 +749,29 @@ fn stress_with(seed: u64, big: bool) -> Vec<Fail> {
         if let Some(o) = order_of_obs {
             let prev = last_seen.entry((t, ki)).or_insert(0);
             if (o as u64) < *prev {
-                fails.push(("c05:reads-go-backwards".into(), format!("thread {t} read key {ki}: an earlier read saw write #{} and a later read saw write #{o}", *prev)));
+                // where the versions of this key live now (diagnosis: a newer version below an older one?)
+                let key = format!("s{:03}", ki).into_bytes();
+                let st = db.verif_state();
+                let mut places: Vec<String> = vec![];
+                let show = |e: &raindb::verif::Entry| format!("seq{}{}", e.1, if e.2 == 1 { format!("=v{}", if e.3.len() >= 8 { u64::from_le_bytes(e.3[..8].try_into().unwrap()) } else { 0 }) } else { "=del".into() });
+                for e in st.mem.iter().filter(|e| e.0 == key) {
+                    places.push(format!("mem:{}", show(e)));
+                }
+                if let Some(imm) = &st.imm {
+                    for e in imm.iter().filter(|e| e.0 == key) {
+                        places.push(format!("imm:{}", show(e)));
+                    }
+                }
+                for (lvl, files) in st.levels.iter().enumerate() {
+                    for f in files {
+                        if let Ok(es) = db.verif_table_entries(f.number) {
+                            for e in es.iter().filter(|e| e.0 == key) {
+                                places.push(format!("L{lvl}#{}:{}", f.number, show(e)));
+                            }
+                        }
+                    }
+                }
+                fails.push(("c05:reads-go-backwards".into(), format!("thread {t} read key {ki}: an earlier read [.., ..] saw write #{} and a later read [{s},{e}] saw write #{o} (obs {obs}); writes of the key {:?}; the key's entries at the end: {}", *prev, wl.iter().map(|w| (w.0, w.1, w.2 & !(1 << 63), w.2 >> 63)).collect::<Vec<_>>(), places.join(" "))));
                 break;
             }
             *prev = o as u64;
@@ -834,5 +896,8 @@ pub fn run(tier: &str, seed: u64, replay: Option<&str>, shard: Option<ShardArgs>
         rep.count("model_drift");
     }
     rep.model_requests = MODEL_REQUESTS.load(Ordering::SeqCst);
+    for _ in 0..COMPACT_DURING_BATCH.load(Ordering::SeqCst) {
+        rep.count("c06.manual-compaction-requested-during-batch");
+    }
     rep
 }
